@@ -407,10 +407,13 @@ class TelstateDataSource(DataSource):
             int_time = telstate['int_time']
             n_dumps = chunk_info['correlator_data']['shape'][0]
             timestamps = t0 + np.arange(n_dumps) * int_time
+        # Remember when the capture started, as preselection may drop its first dumps
+        capture_start = timestamps[0] if len(timestamps) else None
         if 'dumps' in preselect:
             timestamps = timestamps[preselect['dumps']]
         # Metadata and timestamps with or without data
         DataSource.__init__(self, metadata, timestamps, data)
+        self.capture_start = capture_start
         self.capture_block_id = capture_block_id
         self.stream_name = stream_name
         self.url = url
